@@ -21,6 +21,8 @@ structure Sim where
   nextId : Nat := 100000
   stuck : List String := []
   racy : Bool := false      -- a loop whose loopDone is closed stood at its select while a message was ready: Go chooses at random
+  watchProg : List (Nat × String) := []   -- observation ↦ program of its callback (run for the first notification)
+  notes : List Nat := []                  -- one element per notification sent (its observation)
   rtRace : Bool := false    -- within one quiescence period one goroutine called TryToReplaceLoop while another loop's
                             -- readingMessages flag changed: which of the two came first is the scheduler's choice
 
@@ -179,6 +181,17 @@ def applyOp (udp : Bool) (limit epLimit : Nat) (sim : Sim) (f : List String) : O
     let ms := (ids.splitOn "-").filterMap (·.toNat?)
     some ({ sim with s := { s with inbox := s.inbox ++ ms.map (fun m => ⟨m, .req []⟩) } }, [])
   | ["call", prog] => some ({ sim with s := addOutside s (compileProg udp limit epLimit prog) }, [])
+  | ["watch", k, prog] => do
+    let k ← k.toNat?
+    some ({ sim with s := addOutside s (observeProg udp 1 epLimit limit k), obsExch := k :: sim.obsExch,
+                     watchProg := (k, prog) :: sim.watchProg }, [])
+  | ["note", k] => do
+    -- a notification is dispatched to the observation's callback like a request to the handler
+    let k ← k.toNat?
+    let j := (sim.notes.filter (· == k)).length + 1
+    let prog := if j == 1 then compileProg udp limit epLimit ((sim.watchProg.lookup k).getD "r") else []
+    some ({ sim with s := { s with inbox := s.inbox ++ [⟨9000 + 100 * k + j, .req prog⟩] }, notes := k :: sim.notes }, [])
+  | ["pad", _] => some (sim, [])
   | ["resp", k] => do
     let k ← k.toNat?
     if sim.everSent.contains k then some (wire (.resp k), []) else some (sim, [s!"early{k}"])
@@ -207,7 +220,7 @@ def model (line : String) : String :=
       let f := op.splitOn ":"
       let n0 := sim.s.log.length
       -- the harness lets one millisecond of virtual time pass before every arrival / outside call
-      let sim := if f.head? == some "arrive" || f.head? == some "call" || f.head? == some "burst" then sleepFor sim 1 else sim
+      let sim := if ["arrive", "call", "burst", "watch", "note"].contains (f.headD "") then sleepFor sim 1 else sim
       match applyOp udp limit epLimit sim f with
       | some (sim1, pre) =>
         let sim2 := match f with
@@ -231,7 +244,7 @@ def classify (line : String) : String :=
     let sim0 : Sim := { s := init (q.toNat?.getD 0) udp [] }
     let sim := ops.foldl (fun (sim : Sim) op =>
       let f := op.splitOn ":"
-      let sim := if f.head? == some "arrive" || f.head? == some "call" || f.head? == some "burst" then sleepFor sim 1 else sim
+      let sim := if ["arrive", "call", "burst", "watch", "note"].contains (f.headD "") then sleepFor sim 1 else sim
       match applyOp udp limit epLimit sim f with
       | some (sim1, _) => (match f with
           | ["sleep", ms] => sleepFor sim1 (ms.toNat?.getD 0)
@@ -247,6 +260,8 @@ def history (udp : Bool) (ops : List String) (segs : List String) : Option (List
   let mut ackd : List String := []      -- exchanges whose bare ACK really went out
   let mut segs := segs
   let mut pending := 0
+  let mut watchProg : List (String × String) := []
+  let mut notes : List String := []
   for op in ops do
     let f := op.splitOn ":"
     let seg ← segs.head?
@@ -260,6 +275,11 @@ def history (udp : Bool) (ops : List String) (segs : List String) : Option (List
     | ["burst", ids] =>
       for m in (ids.splitOn "-").filterMap (·.toNat?) do
         hist := hist ++ [.arrive m false]
+    | ["watch", k, prog] => watchProg := (k, prog) :: watchProg
+    | ["note", k] =>
+      let j := (notes.filter (· == k)).length + 1
+      notes := k :: notes
+      hist := hist ++ [.arrive (9000 + 100 * (← k.toNat?) + j) (j == 1 && (watchProg.lookup k).getD "r" != "r")]
     | ["resp", k] => if !early then hist := hist ++ [.answered (← k.toNat?)]
     | ["ack", k] => if !early then ackd := k :: ackd
     -- a separate response before the ACK does not complete the call (it still waits for the ACK): no claim
